@@ -98,8 +98,6 @@ def z3_models(gp: GP, fixed, show_atoms, cap=120):
 
 def validate_encoder(gp: GP, instance_atoms, rnd, n_inst=3):
     """returns (compared instances, mismatches[list])"""
-    if not gp.head_cycle_free():
-        return 0, []
     text = gp_to_asp(gp)
     shown = [a for a in gp.atoms if a in gp.sym]
     bad, n = [], 0
@@ -249,7 +247,7 @@ def run_task(task):
             res["problems"].append({"what": "encoder validation: stable models from the SMT encoding differ from clingo", "program": tag, **b})
     res["encoder_instances"] = n_val
     res["twins"] = []
-    if A.head_cycle_free() and B.head_cycle_free():
+    if True:
         for kind in ("drop_visible_rule", "drop_constraint", "flip_literal", "lower_bound"):
             tw = sabotage_twin(A, B, ins, rnd, kind)
             res["twins"].append(tw)
